@@ -37,6 +37,8 @@ func main() {
 		os.Exit(cmdReplay(os.Args[2:]))
 	case "concrete":
 		os.Exit(cmdConcrete(os.Args[2:]))
+	case "manifest":
+		os.Exit(cmdManifest())
 	case "list":
 		for _, id := range specOrder {
 			s := specs[id]
